@@ -3,7 +3,7 @@ from props import common as cm
 ID = 'C03'
 MODS = cm.MODS_CORE + ['contracts.c_math']
 FOCUS = 'range'
-FUNCS = [cm.P + n for n in ('expand_sequence', 'remove_pure_action_lines', 'parser_work', 'parse', 'expand_macro', 'expand_arguments', 'arg_buffer', 'generate_replacements', 'begin_environment', 'end_environment')] + cm.SCANNER + ['yalafi.mathparser.MathParser.expand_math_section', 'yalafi.mathparser.MathParser.replace_section', 'yalafi.mathparser.MathParser.expand_inline_math', 'yalafi.mathparser.MathParser.expand_display_math']
+FUNCS = [cm.P + n for n in ('expand_sequence', 'remove_pure_action_lines', 'parser_work', 'parse', 'expand_macro', 'expand_arguments', 'arg_buffer', 'generate_replacements', 'begin_environment', 'end_environment', 'get_text_expanded')] + cm.SCANNER + ['yalafi.mathparser.MathParser.expand_math_section', 'yalafi.mathparser.MathParser.replace_section', 'yalafi.mathparser.MathParser.expand_inline_math', 'yalafi.mathparser.MathParser.expand_display_math']
 
 
 def SELECT(name):
